@@ -12,14 +12,30 @@
 //   * nng_aio_get_msg after a failed send must return the message (:kept / :LOST);
 //   * a second command set for programs over REAL transports (inproc / ipc / tcp):
 //     xopen, listen, dial, bsend, brecv, asend, arecv, acancel, astop, await, pclose,
-//     lclose, dclose, device, devstop, msleep.  Those lines print only what does not
+//     lclose, dclose, device, devstop, msleep, rawpeer (a plain-socket peer that dies in mid-message).  Those lines print only what does not
 //     depend on timing; what is judged there is the sanitizers, the allocator balance
-//     and the message counters being zero once everything is closed.
+//     and the message counters being zero once everything is closed;
+//   * the MESSAGE-MANIPULATION family on numbered message slots m0..m15: malloc, mappend,
+//     minsert, mtrim, mchop, mrealloc, mreserve, mclear, mhappend, mhinsert, mhtrim, mhchop,
+//     mhclear, mdup, mfree, mfail (the i-th allocation of the next operation fails), mbooks,
+//     msend / mrecv (real transports: a slot's message travels / a received one is adopted),
+//     mstyle (how send/bsend build their message: append, insert, reserve, realloc, dup ...).
+//     An m-line prints the result, what the API shows of the slot (length, header length,
+//     nng_msg_capacity), what the allocator knows of the body block (the size it was
+//     allocated with and the head room = body pointer - block base) and THE ALLOCATOR EVENTS
+//     of the call on the calling thread: A<size> / F<allocated size>:<size passed to free>.
+//     Every free on every thread is compared with the allocation's size; a difference is the
+//     observation `free-size-mismatch <alloc> <free>` on the next line that is printed.
 #define _GNU_SOURCE
+#include <arpa/inet.h>
+#include <netinet/in.h>
 #include <poll.h>
 #include <pthread.h>
 #include <sched.h>
+#include <sys/socket.h>
+#include <sys/un.h>
 #include <time.h>
+#include <unistd.h>
 
 #include "vtran.h"
 #include "wb_common.h"
@@ -42,7 +58,31 @@ static long            acc_rep_size, acc_rep_unknown; // ... already reported on
 static size_t          acc_msg_size;                  // sizeof(struct nng_msg), probed
 static long            acc_msg_blocks;                // live blocks of that size
 static char            acc_first_bad[256];
-static int             acc_fail_at = -1; // fail the k-th allocation from now (unused by default)
+static __thread int    acc_main;         // this is the script thread
+static int             acc_rec;          // record the script thread's allocator events (during an m-command)
+static int             acc_fail_in = -1; // while recording: fail the allocation when this reaches 0
+static char            acc_ev[1024];
+static size_t          acc_evn;
+static long            acc_mm_alloc = -1, acc_mm_free = -1; // first sized-free mismatch not yet printed
+static long            acc_mark_blocks, acc_mark_bytes;    // live at the last mark
+
+static void
+acc_event(char k, size_t a, size_t f)
+{
+	if (acc_evn + 48 >= sizeof(acc_ev)) return;
+	if (k == 'A')
+		acc_evn += (size_t) snprintf(acc_ev + acc_evn, sizeof(acc_ev) - acc_evn, "%sA%zu", acc_evn ? "," : "", a);
+	else
+		acc_evn += (size_t) snprintf(acc_ev + acc_evn, sizeof(acc_ev) - acc_evn, "%sF%zu:%zu", acc_evn ? "," : "", a, f);
+}
+static int
+acc_should_fail(void)
+{
+	if (acc_main && acc_rec && acc_fail_in >= 0) {
+		if (acc_fail_in-- == 0) return 1;
+	}
+	return 0;
+}
 
 static unsigned
 acc_hash(void *p)
@@ -67,10 +107,12 @@ acc_insert(void *p, size_t sz)
 	acc_allocs++;
 	if (sz == acc_msg_size) acc_msg_blocks++;
 	pthread_mutex_unlock(&acc_mtx);
+	if (acc_main && acc_rec) acc_event('A', sz, 0);
 }
 static void *
 acc_malloc(size_t sz)
 {
+	if (acc_should_fail()) return NULL;
 	void *p = malloc(sz);
 	if (p != NULL) acc_insert(p, sz);
 	return p;
@@ -78,6 +120,7 @@ acc_malloc(size_t sz)
 static void *
 acc_calloc(size_t n, size_t sz)
 {
+	if (acc_should_fail()) return NULL;
 	void *p = calloc(n, sz);
 	if (p != NULL) acc_insert(p, n * sz);
 	return p;
@@ -107,7 +150,12 @@ acc_free(void *p, size_t sz)
 		acc_bad_size++;
 		if (!acc_first_bad[0])
 			snprintf(acc_first_bad, sizeof(acc_first_bad), "sized free mismatch: allocated %zu freed as %zu", n->size, sz);
+		if (acc_mm_alloc < 0) {
+			acc_mm_alloc = (long) n->size;
+			acc_mm_free  = (long) sz;
+		}
 	}
+	if (acc_main && acc_rec) acc_event('F', n->size, sz);
 	acc_live_blocks--;
 	acc_live_bytes -= (long) n->size;
 	acc_frees++;
@@ -115,6 +163,37 @@ acc_free(void *p, size_t sz)
 	pthread_mutex_unlock(&acc_mtx);
 	free(n);
 	free(p);
+}
+
+// the live block that contains p: its size, and p's offset in it (1 if found)
+static int
+acc_block_of(const void *p, size_t *size, size_t *off)
+{
+	int found = 0;
+	pthread_mutex_lock(&acc_mtx);
+	for (int h = 0; h < ACC_BUCKETS && !found; h++) {
+		for (acc_node *n = acc_tab[h]; n != NULL; n = n->next) {
+			if ((const uint8_t *) p >= (uint8_t *) n->ptr && (const uint8_t *) p < (uint8_t *) n->ptr + n->size) {
+				*size = n->size;
+				*off  = (size_t) ((const uint8_t *) p - (uint8_t *) n->ptr);
+				found = 1;
+				break;
+			}
+		}
+	}
+	pthread_mutex_unlock(&acc_mtx);
+	return found;
+}
+// the distinct observation of a free whose size is not the allocation's (any thread)
+static void
+print_mismatch(void)
+{
+	pthread_mutex_lock(&acc_mtx);
+	if (acc_mm_alloc >= 0) {
+		printf(" free-size-mismatch %ld %ld", acc_mm_alloc, acc_mm_free);
+		acc_mm_alloc = acc_mm_free = -1;
+	}
+	pthread_mutex_unlock(&acc_mtx);
 }
 
 // hook H3 (weak: absent in a tree without the hook)
@@ -163,6 +242,7 @@ static int          nrids;
 static nng_listener listeners[NEP];
 static nng_dialer   dialers[NEP];
 static int          lis_open[NEP], dial_open[NEP], lis_port[NEP];
+static char         lis_url[NEP][200];
 static long         n_lost; // failed sends whose message was no longer on the aio
 static nng_pipe     last_pipe[NSOCK]; // most recent pipe added to the socket (real transports)
 static int          have_pipe[NSOCK];
@@ -395,6 +475,7 @@ observe(int rv, const char *extra)
 		acc_first_bad[0] = 0;
 	}
 	pthread_mutex_unlock(&acc_mtx);
+	print_mismatch();
 	printf("\n");
 	fflush(stdout);
 }
@@ -414,6 +495,12 @@ struct {
 	{ "pair1_raw", nng_pair1_open_raw, 0 }, { "bus0", nng_bus0_open, 0 }, { "bus0_raw", nng_bus0_open_raw, 0 },
 	{ NULL, NULL, 0 },
 };
+
+// message slots of the m-commands
+#define NMSG 16
+static nng_msg *mslot[NMSG];
+static int      build_style; // mstyle <n>: how send / sendnb / bsend construct their message
+static uint8_t  pat[1 << 16];
 
 static void
 reset_all(void)
@@ -451,6 +538,10 @@ reset_all(void)
 	vt_npipes = 0;
 	nni_mtx_unlock(&vt_mtx);
 	nrids = 0;
+	for (int k = 0; k < NMSG; k++) {
+		if (mslot[k] != NULL) nng_msg_free(mslot[k]);
+		mslot[k] = NULL;
+	}
 }
 
 static nng_aio *
@@ -463,19 +554,81 @@ get_aio(int k)
 	return aios[k];
 }
 
+
+// the same header and body, reached through different allocation histories of the body chunk
 static nng_msg *
 build_msg(const char *hdr, const char *bdy)
 {
 	size_t   hl, bl;
 	uint8_t *h = untok(hdr, &hl);
 	uint8_t *b = untok(bdy, &bl);
-	nng_msg *m;
-	nng_msg_alloc(&m, 0);
+	nng_msg *m = NULL, *d;
+	switch (build_style) {
+	default: // as ever: empty message, append
+		nng_msg_alloc(&m, 0);
+		nng_msg_append(m, b, bl);
+		break;
+	case 1: // allocated with its final size
+		nng_msg_alloc(&m, bl);
+		if (bl) memcpy(nng_msg_body(m), b, bl);
+		break;
+	case 2: // inserted in front (beyond the head room: re-allocation)
+		nng_msg_alloc(&m, 0);
+		nng_msg_insert(m, b, bl);
+		break;
+	case 3: // reserve, then append
+		nng_msg_alloc(&m, 0);
+		nng_msg_reserve(m, bl + 64);
+		nng_msg_append(m, b, bl);
+		break;
+	case 4: // realloc up, fill in; grown past the end and chopped back
+		nng_msg_alloc(&m, 0);
+		nng_msg_realloc(m, bl);
+		if (bl) memcpy(nng_msg_body(m), b, bl);
+		nng_msg_append(m, pat, 100);
+		nng_msg_chop(m, 100);
+		break;
+	case 5: // second half appended, first half inserted, a scratch prefix trimmed off again
+		nng_msg_alloc(&m, 0);
+		nng_msg_append(m, b + bl / 2, bl - bl / 2);
+		nng_msg_insert(m, b, bl / 2);
+		nng_msg_insert(m, pat, 40);
+		nng_msg_trim(m, 40);
+		break;
+	case 6: // a duplicate of a grown message (the copy is allocated with the source's cap field)
+		nng_msg_alloc(&d, 0);
+		nng_msg_append(d, b, bl);
+		nng_msg_append(d, pat, 200);
+		nng_msg_chop(d, 200);
+		nng_msg_dup(&m, d);
+		nng_msg_free(d);
+		break;
+	}
 	nng_msg_header_append(m, h, hl);
-	nng_msg_append(m, b, bl);
 	free(h);
 	free(b);
 	return m;
+}
+
+// one m-line: result, the slot as the API and the allocator show it, the events of the call
+static void
+mline(int rv, int k)
+{
+	printf("m rv=%d s=", rv);
+	if (k >= 0 && k < NMSG && mslot[k] != NULL) {
+		nng_msg *m = mslot[k];
+		size_t   bsz = 0, off = 0;
+		if (nng_msg_body(m) != NULL && acc_block_of(nng_msg_body(m), &bsz, &off))
+			printf("%zu:%zu:%zu:%zu:%zu", nng_msg_len(m), nng_msg_header_len(m), nng_msg_capacity(m), bsz, off);
+		else
+			printf("%zu:%zu:%zu:?:?", nng_msg_len(m), nng_msg_header_len(m), nng_msg_capacity(m));
+	} else {
+		printf("-");
+	}
+	printf(" ev=%s", acc_evn ? acc_ev : "-");
+	print_mismatch();
+	printf("\n");
+	fflush(stdout);
 }
 
 // wait (real time, bounded) until aio k has completed; 1 if it has
@@ -512,6 +665,8 @@ main(int argc, char **argv)
 	}
 	vt_register();
 	nni_mtx_init(&cb_mtx);
+	acc_main = 1;
+	for (size_t i = 0; i < sizeof(pat); i++) pat[i] = (uint8_t) (0x21 + i % 0x5e);
 	// probe sizeof(struct nng_msg): the first block of an nng_msg_alloc(0)
 	if (use_acc) {
 		long     a0 = acc_allocs;
@@ -552,12 +707,19 @@ main(int argc, char **argv)
 			if (lr != 0 || ll != 0) printf("leaked refs=%ld live=%ld\n", lr, ll);
 			pthread_mutex_lock(&acc_mtx);
 			if (acc_bad_size != acc_rep_size || acc_bad_unknown != acc_rep_unknown) {
-				printf("allocbad %ld %ld %s\n", acc_bad_size - acc_rep_size, acc_bad_unknown - acc_rep_unknown, acc_first_bad);
+				printf("allocbad %ld %ld %s", acc_bad_size - acc_rep_size, acc_bad_unknown - acc_rep_unknown, acc_first_bad);
 				acc_rep_size     = acc_bad_size;
 				acc_rep_unknown  = acc_bad_unknown;
 				acc_first_bad[0] = 0;
+				pthread_mutex_unlock(&acc_mtx);
+				print_mismatch();
+				printf("\n");
+				pthread_mutex_lock(&acc_mtx);
 			}
+			acc_mark_blocks = acc_live_blocks;
+			acc_mark_bytes  = acc_live_bytes;
 			pthread_mutex_unlock(&acc_mtx);
+			build_style = 0;
 			base_refs = cur_refs() < 0 ? 0 : cur_refs();
 			base_live = cur_live();
 			printf("mark %s\n", tok[1]);
@@ -725,6 +887,7 @@ main(int argc, char **argv)
 			if (rv == 0) {
 				int port     = 0;
 				lis_open[e]  = 1;
+				snprintf(lis_url[e], sizeof(lis_url[e]), "%s", tok[3]);
 				if (nng_listener_get_int(listeners[e], NNG_OPT_BOUND_PORT, &port) == 0) lis_port[e] = port;
 			}
 			printf("x rv=%d\n", rv);
@@ -901,6 +1064,220 @@ main(int argc, char **argv)
 			printf("x refs=%ld live=%ld lost=%ld\n", cur_refs() < 0 ? -1 : cur_refs() - base_refs, cur_live() - base_live, n_lost);
 			fflush(stdout);
 			continue;
+		} else if (strcmp(op, "rawpeer") == 0) {
+			// rawpeer l<e> <proto> <announce> <send> <linger-ms>: a peer on a plain socket (tcp / ipc listener e) that
+			// completes the SP handshake as protocol <proto>, announces a message of <announce> bytes, sends only <send>
+			// of them, waits and closes: the pipe is lost IN THE MIDDLE of a message the transport has already allocated
+			int e  = IDX(tok[1]);
+			int fd = -1;
+			if (e >= 0 && e < NEP && lis_open[e]) {
+				if (strncmp(lis_url[e], "tcp://", 6) == 0) {
+					struct sockaddr_in sa;
+					memset(&sa, 0, sizeof(sa));
+					sa.sin_family      = AF_INET;
+					sa.sin_port        = htons((uint16_t) lis_port[e]);
+					sa.sin_addr.s_addr = htonl(INADDR_LOOPBACK);
+					fd                 = socket(AF_INET, SOCK_STREAM, 0);
+					if (fd >= 0 && connect(fd, (struct sockaddr *) &sa, sizeof(sa)) != 0) {
+						close(fd);
+						fd = -1;
+					}
+				} else if (strncmp(lis_url[e], "ipc://", 6) == 0) {
+					struct sockaddr_un su;
+					memset(&su, 0, sizeof(su));
+					su.sun_family = AF_UNIX;
+					snprintf(su.sun_path, sizeof(su.sun_path), "%s", lis_url[e] + 6);
+					fd = socket(AF_UNIX, SOCK_STREAM, 0);
+					if (fd >= 0 && connect(fd, (struct sockaddr *) &su, sizeof(su)) != 0) {
+						close(fd);
+						fd = -1;
+					}
+				}
+			}
+			if (fd >= 0) {
+				int      ipc      = strncmp(lis_url[e], "ipc://", 6) == 0;
+				uint16_t proto    = (uint16_t) atoi(tok[2]);
+				uint64_t announce = (uint64_t) atoll(tok[3]);
+				size_t   nsend    = (size_t) atoll(tok[4]);
+				uint8_t  hs[8]    = { 0, 'S', 'P', 0, (uint8_t) (proto >> 8), (uint8_t) proto, 0, 0 };
+				uint8_t  in[8], fr[9];
+				size_t   fl = 0;
+				struct pollfd pf = { .fd = fd, .events = POLLIN };
+				(void) !send(fd, hs, 8, MSG_NOSIGNAL);
+				size_t got = 0;
+				while (got < 8 && poll(&pf, 1, 300) == 1) {
+					ssize_t r = read(fd, in + got, 8 - got);
+					if (r <= 0) break;
+					got += (size_t) r;
+				}
+				if (got == 8) {
+					if (ipc) fr[fl++] = 1;
+					for (int i = 7; i >= 0; i--) fr[fl++] = (uint8_t) (announce >> (8 * i));
+					(void) !send(fd, fr, fl, MSG_NOSIGNAL);
+					if (nsend > sizeof(pat)) nsend = sizeof(pat);
+					if (nsend > 0) (void) !send(fd, pat, nsend, MSG_NOSIGNAL);
+					nng_msleep(nt > 5 ? atoi(tok[5]) : 5);
+				}
+				close(fd);
+			}
+			printf("x\n");
+			fflush(stdout);
+			continue;
+		} else if (strcmp(op, "mstyle") == 0) {
+			build_style = atoi(tok[1]);
+		} else if (strcmp(op, "mssz") == 0) {
+			// mssz <n>: tells the MODEL sizeof(struct nng_msg); the driver answers with what it measured
+			printf("m ssz=%zu\n", acc_msg_size);
+			fflush(stdout);
+			continue;
+		} else if (strcmp(op, "mfail") == 0) {
+			// the i-th allocation (0 = first) the NEXT m-command makes on this thread fails
+			acc_fail_in = atoi(tok[1]);
+			printf("m fail=%d\n", acc_fail_in);
+			fflush(stdout);
+			continue;
+		} else if (strcmp(op, "mbooks") == 0) {
+			// blocks / bytes the allocator has handed out since the last mark and not got back
+			// (exact only while no socket is open)
+			pthread_mutex_lock(&acc_mtx);
+			long b = acc_live_blocks - acc_mark_blocks, y = acc_live_bytes - acc_mark_bytes;
+			pthread_mutex_unlock(&acc_mtx);
+			printf("m books=%ld:%ld", b, y);
+			print_mismatch();
+			printf("\n");
+			fflush(stdout);
+			continue;
+		} else if (op[0] == 'm' && (strcmp(op, "malloc") == 0 || strcmp(op, "mappend") == 0 || strcmp(op, "minsert") == 0 ||
+		                               strcmp(op, "mtrim") == 0 || strcmp(op, "mchop") == 0 || strcmp(op, "mrealloc") == 0 ||
+		                               strcmp(op, "mreserve") == 0 || strcmp(op, "mclear") == 0 || strcmp(op, "mhappend") == 0 ||
+		                               strcmp(op, "mhinsert") == 0 || strcmp(op, "mhtrim") == 0 || strcmp(op, "mhchop") == 0 ||
+		                               strcmp(op, "mhclear") == 0 || strcmp(op, "mdup") == 0 || strcmp(op, "mfree") == 0)) {
+			// <op> m<k> [<n> | m<j>]: one call of the message API on slot k; the line shows slot k (mdup: slot j)
+			int    k    = IDX(tok[1]);
+			int    show = (strcmp(op, "mdup") == 0 && nt > 2) ? IDX(tok[2]) : k; // mdup shows the destination slot
+			size_t n    = (nt > 2 && tok[2][0] != 'm') ? (size_t) atoll(tok[2]) : 0;
+			if (n > sizeof(pat)) n = sizeof(pat);
+			nng_msg *m = (k >= 0 && k < NMSG) ? mslot[k] : NULL;
+			acc_evn    = 0;
+			acc_ev[0]  = 0;
+			if (k < 0 || k >= NMSG) {
+				rv = NNG_ENOENT;
+			} else if (strcmp(op, "malloc") == 0) {
+				if (m != NULL) {
+					rv = NNG_EBUSY;
+				} else {
+					acc_rec = 1;
+					rv      = nng_msg_alloc(&mslot[k], n);
+					acc_rec = 0;
+					if (rv != 0) mslot[k] = NULL;
+				}
+			} else if (m == NULL) {
+				rv = NNG_ENOENT;
+			} else if (strcmp(op, "mdup") == 0) {
+				int j = IDX(tok[2]);
+				if (j < 0 || j >= NMSG) {
+					rv = NNG_ENOENT;
+				} else if (mslot[j] != NULL) {
+					rv = NNG_EBUSY;
+				} else {
+					acc_rec = 1;
+					rv      = nng_msg_dup(&mslot[j], m);
+					acc_rec = 0;
+					if (rv != 0) mslot[j] = NULL;
+				}
+			} else if (strcmp(op, "mfree") == 0) {
+				acc_rec = 1;
+				nng_msg_free(m);
+				acc_rec  = 0;
+				mslot[k] = NULL;
+			} else {
+				acc_rec = 1;
+				if (strcmp(op, "mappend") == 0) rv = nng_msg_append(m, pat, n);
+				else if (strcmp(op, "minsert") == 0) rv = nng_msg_insert(m, pat, n);
+				else if (strcmp(op, "mtrim") == 0) rv = nng_msg_trim(m, n);
+				else if (strcmp(op, "mchop") == 0) rv = nng_msg_chop(m, n);
+				else if (strcmp(op, "mrealloc") == 0) rv = nng_msg_realloc(m, n);
+				else if (strcmp(op, "mreserve") == 0) rv = nng_msg_reserve(m, n);
+				else if (strcmp(op, "mclear") == 0) nng_msg_clear(m);
+				else if (strcmp(op, "mhappend") == 0) rv = nng_msg_header_append(m, pat, n);
+				else if (strcmp(op, "mhinsert") == 0) rv = nng_msg_header_insert(m, pat, n);
+				else if (strcmp(op, "mhtrim") == 0) rv = nng_msg_header_trim(m, n);
+				else if (strcmp(op, "mhchop") == 0) rv = nng_msg_header_chop(m, n);
+				else if (strcmp(op, "mhclear") == 0) nng_msg_header_clear(m);
+				acc_rec = 0;
+			}
+			acc_fail_in = -1;
+			mline(rv, show);
+			continue;
+		} else if (strcmp(op, "msend") == 0) {
+			// msend s<k>|c<k> m<j> <timeout-ms>: the slot's message travels (real transports; timing dependent:
+			// the line only says whether the library took it)
+			int      isc = tok[1][0] == 'c';
+			int      t   = IDX(tok[1]);
+			int      j   = IDX(tok[2]);
+			nng_msg *m   = (j >= 0 && j < NMSG) ? mslot[j] : NULL;
+			if (m == NULL) {
+				printf("x sent=0\n");
+				fflush(stdout);
+				continue;
+			}
+			nng_aio *a;
+			nng_aio_alloc(&a, NULL, NULL);
+			nng_aio_set_timeout(a, atoi(tok[3]));
+			nng_aio_set_msg(a, m);
+			if (isc)
+				nng_ctx_send(ctxs[t], a);
+			else
+				nng_socket_send(socks[t], a);
+			nng_aio_wait(a);
+			if (nng_aio_result(a) != 0) {
+				if (nng_aio_get_msg(a) != m) {
+					n_lost++;
+					mslot[j] = NULL;
+					printf("x LOST rv=%d\n", nng_aio_result(a));
+				}
+				printf("x sent=0");
+			} else {
+				mslot[j] = NULL;
+				printf("x sent=1");
+			}
+			nng_aio_free(a);
+			print_mismatch();
+			printf("\n");
+			fflush(stdout);
+			continue;
+		} else if (strcmp(op, "mrecv") == 0) {
+			// mrecv s<k>|c<k> m<j> <timeout-ms>: a received message is put into the (empty) slot; the line shows what
+			// the allocator knows of its body block: adopt=<allocated size>:<head room>:<length>:<header length>
+			int      isc = tok[1][0] == 'c';
+			int      t   = IDX(tok[1]);
+			int      j   = IDX(tok[2]);
+			nng_aio *a;
+			nng_aio_alloc(&a, NULL, NULL);
+			nng_aio_set_timeout(a, atoi(tok[3]));
+			if (isc)
+				nng_ctx_recv(ctxs[t], a);
+			else
+				nng_socket_recv(socks[t], a);
+			nng_aio_wait(a);
+			if (nng_aio_result(a) == 0) {
+				nng_msg *m   = nng_aio_get_msg(a);
+				size_t   bsz = 0, off = 0;
+				if (j >= 0 && j < NMSG && mslot[j] == NULL && nng_msg_body(m) != NULL && acc_block_of(nng_msg_body(m), &bsz, &off)) {
+					mslot[j] = m;
+					printf("x adopt=%zu:%zu:%zu:%zu", bsz, off, nng_msg_len(m), nng_msg_header_len(m));
+				} else {
+					nng_msg_free(m);
+					printf("x recv=0");
+				}
+			} else {
+				printf("x recv=0");
+			}
+			nng_aio_free(a);
+			print_mismatch();
+			printf("\n");
+			fflush(stdout);
+			continue;
 		} else {
 			printf("badop %s\n", op);
 			fflush(stdout);
@@ -915,6 +1292,7 @@ main(int argc, char **argv)
 	printf("fini outstanding=%ld/%ld allocs=%ld frees=%ld badsize=%ld badptr=%ld msgrefs=%ld msglive=%ld lost=%ld%s%s\n", acc_live_bytes, acc_live_blocks,
 	    acc_allocs, acc_frees, acc_bad_size, acc_bad_unknown, end_refs < 0 ? 0 : end_refs - base_refs, end_live - base_live, n_lost,
 	    acc_first_bad[0] ? " first=" : "", acc_first_bad);
+	if (acc_mm_alloc >= 0) printf("free-size-mismatch %ld %ld\n", acc_mm_alloc, acc_mm_free);
 	if (acc_live_blocks != 0) {
 		int shown = 0;
 		for (int h = 0; h < ACC_BUCKETS && shown < 8; h++)
